@@ -43,6 +43,20 @@ def library_flows():
     out.append(("Flow(MAF-transform ctx, ConditionalDiagonalNormal, embedding)", lambda: Flow(ar.MaskedAffineAutoregressiveTransform(2, 8, context_features=4),
                 normal.ConditionalDiagonalNormal([2]), embedding_net=nn.Linear(3, 4)), 2, 3))
     out.append(("MaskedAutoregressiveFlow (no context)", lambda: MaskedAutoregressiveFlow(2, 8, 2, 1), 2, None))
+    from nflows.transforms import qr as qr_, svd as svd_, linear as lin_
+    import catalogue as cat_
+
+    def moved(mk_t, D_):
+        def make():
+            t_ = mk_t()
+            cat_.randomize(t_, 11, 0.5)
+            return Flow(base.CompositeTransform([t_, nl.LeakyReLU(0.5)]), normal.StandardNormal([D_]))
+        return make
+    out.append(("Flow(QRLinear(3 reflections, using_cache) + LeakyReLU, StandardNormal), parameters moved", moved(lambda: qr_.QRLinear(3, 3, using_cache=True), 3), 3, None))
+    out.append(("Flow(SVDLinear(4 reflections, using_cache) + LeakyReLU, StandardNormal), parameters moved",
+                moved(lambda: svd_.SVDLinear(3, 4, using_cache=True, identity_init=False), 3), 3, None))
+    out.append(("Flow(LULinear(using_cache) + LeakyReLU, StandardNormal), parameters moved", moved(lambda: lu.LULinear(3, using_cache=True, identity_init=False), 3), 3, None))
+    out.append(("Flow(NaiveLinear(using_cache) + LeakyReLU, StandardNormal), parameters moved", moved(lambda: lin_.NaiveLinear(3, using_cache=True), 3), 3, None))
     from nflows.transforms import permutations as perm
     out.append(("MaskedAutoregressiveFlow(4 features, random permutations)", lambda: MaskedAutoregressiveFlow(4, 8, 2, 1, use_random_permutations=True), 4, None))
     out.append(("Flow(RandomPermutation ; MAF-transform ctx ; RandomPermutation, StandardNormal)", lambda: Flow(base.CompositeTransform([
